@@ -995,9 +995,9 @@ pub fn part_c12(run: &mut Run, tier: &str) {
     };
     // ---- PKE
     let mut lens: Vec<usize> = if thorough { (0..=48).collect() } else { (0..=20).collect() };
-    lens.extend([31, 32, 33, 63, 64, 65, 255, 256]);
+    lens.extend([31, 32, 33, 63, 64, 65, 255, 256, 65_535, 65_536, 65_537]);
     if thorough {
-        lens.push(4096);
+        lens.extend([4096, 1 << 20, (1 << 20) + 1]);
     }
     lens.sort_unstable();
     lens.dedup();
